@@ -1021,7 +1021,17 @@ def r_query(w, op):
     if op.get("big") and fn_name in BIG_OK:
         caps = BIG_OK[fn_name]
     max_pts = caps[2]
-    basis = w.basis(d[0], True, max_nbf=caps[0], max_l=caps[1], max_work=max_work)
+    if op.get("heavy"):
+        # a dedicated d shell with four primitives: the (dd|dd) block has 23 M intermediate elements
+        hs = w.classes["base"](2, np.array([rs.uniform(-1, 1) for _ in range(3)]),
+                               np.array([[rs.uniform(0.2, 1.0)] for _ in range(4)]),
+                               np.array([rs.uniform(0.3, 3.0) for _ in range(4)]), rs.choice(["cartesian", "spherical"]))
+        w.shells.append(Entry(hs, meta={"cls": "base"}))
+        basis = [hs]
+        w.containers.append(Entry(basis))
+        w.probe("heavy_two_electron_block")
+    else:
+        basis = w.basis(d[0], True, max_nbf=caps[0], max_l=caps[1], max_work=max_work)
     nbf = w.nbf(basis)
     if len(set(map(id, basis))) < len(basis):
         w.probe("query_on_container_with_repeated_shell")
